@@ -244,6 +244,13 @@ Fixpoint set_nth (l : list Qc) (i : nat) (v : Qc) : list Qc :=
   | a :: l', S i' => a :: set_nth l' i' v
   end.
 
+Fixpoint set_nthz (l : list Z) (i : nat) (v : Z) : list Z :=
+  match l, i with
+  | [], _ => []
+  | _ :: l', O => v :: l'
+  | a :: l', S i' => a :: set_nthz l' i' v
+  end.
+
 Definition store (en : fenv) (lc : loc) (v : gval) : res fenv :=
   match lc with
   | LocVar x => Ok ((x, v) :: en)
@@ -254,6 +261,15 @@ Definition store (en : fenv) (lc : loc) (v : gval) : res fenv :=
           let n := Z.of_nat (length l) in
           let j := (if (i <? 0)%Z then n + i else i)%Z in
           if (j <? 0)%Z || (n <=? j)%Z then Raise IndexError else Ok ((x, VArr (set_nth l (Z.to_nat j) q)) :: en)
+      | VIdxArr l, _ =>
+          (* an integer array (np.zeros(..., dtype=np.int64)) *)
+          match v with
+          | VInt z =>
+              let n := Z.of_nat (length l) in
+              let j := (if (i <? 0)%Z then n + i else i)%Z in
+              if (j <? 0)%Z || (n <=? j)%Z then Raise IndexError else Ok ((x, VIdxArr (set_nthz l (Z.to_nat j) z)) :: en)
+          | _ => Raise TypeError
+          end
       | _, _ => Raise TypeError
       end
   | LocIdx2 x k j =>
@@ -337,6 +353,7 @@ Fixpoint fexec1 (en : fenv) (st : gstmt) {struct st} : fenv * outcome :=
   | SRaise n => (en, ORaise (exn_of_name n))
   | SReturn e => match feval en e with Raise x => (en, ORaise x) | Ok v => (en, OReturn v) end
   | SExpr e => match feval en e with Raise x => (en, ORaise x) | Ok _ => (en, ONormal) end
+  | SWhile _ _ | SBreak => (en, ORaise OtherExn)      (* while loops are run by Model/GlueWhile.v *)
   | SFor vars it body =>
       match feval en it with
       | Raise x => (en, ORaise x)
